@@ -125,14 +125,21 @@ Definition agrees (r : res (list out_event)) (x : expect) : bool :=
   | _, _ => false
   end.
 
+Definition opts_now : opts := {| o_mark := start_marks_completed; o_guard := call_records_active_only |}.
+
 Definition interp_now (cs : configs) (h : list event) : res (list out_event) :=
-  compute_next_steps start_marks_completed FUEL cs h.
+  compute_next_steps opts_now FUEL cs h.
 
 Definition check_interp (c : configs * list event * expect) : bool :=
   let '(cs, h, x) := c in agrees (interp_now cs h) x.
 
 Definition check_spec (c : prog * list event * expect) : bool :=
   let '(p, h, x) := c in agrees (next_steps FUEL p h) x.
+
+(* both at once (one Coq run per group of cases); the harness re-runs the two checks above
+   separately on the cases where this one fails *)
+Definition check_both (c : prog * configs * list event * expect) : bool :=
+  let '(p, cs, h, x) := c in agrees (interp_now cs h) x && agrees (next_steps FUEL p h) x.
 
 Definition check_compile (c : prog * configs) : bool :=
   let '(p, cs) := c in wf_prog p && list_eqb config_eqb (compile_prog p) cs.
